@@ -52,3 +52,4 @@ int verif_caught;   /* class of the exception most recently caught */
 #ifdef VERIF_STUB_BODIES
 char* copy_n(const char* src, size_t n, char* dst) { for (size_t i = 0; i < n; ++i) dst[i] = src[i]; return dst + n; }
 #endif
+#define VERIF_MOVE(x) (x)
